@@ -61,9 +61,9 @@ def plan(tier, seed):
 
 def floors(tier):
     return {
-        "evaluations": 1000000,
+        "evaluations": 300000,
         "strata": ["names", "col3", "col6", "insitu-tikz"],
-        "events": {"int2name": 1000000, "hex2rgb": 100000, "hex2rgbstr": 100000, "hex2html": 100000},
+        "events": {"int2name": 300000, "hex2rgb": 60000, "hex2rgbstr": 60000, "hex2html": 60000},
         "distinct_nontrivial": 1000,
     }
 
